@@ -238,6 +238,19 @@ Proof.
   - apply rem_lengths.
 Qed.
 
+Lemma uf_code_sparse_arr_of_solved t : S t < n ->
+  uf_code_sparse_arr t (qarr_of (nth (S t) code_solve_sparse (scalar VUndef))) (ix_at (S t))
+  = uf_code_sparse m p t (next_table_sparse t) rs rc dst dch cst cch isr (rem_at (S t)).
+Proof.
+  intros Ht. pose proof (uf_of_sparse_period t Ht) as E. unfold sp_get_uf, next_vf, next_ix in E.
+  replace (t =? n - 1) with false in E by (symmetry; apply Nat.eqb_neq; lia).
+  replace (S t =? n) with false in E by (symmetry; apply Nat.eqb_neq; lia).
+  replace (S t <? n) with true in E by (symmetry; apply Nat.ltb_lt; lia). exact E.
+Qed.
+
+Lemma code_solve_sparse_length : 1 <= n -> length code_solve_sparse = n.
+Proof. intros H. unfold code_solve_sparse. now apply lcm_solve_length. Qed.
+
 Lemma uf_of_sparse_last_period t : S t = n ->
   sp_get_uf tt t (t =? n - 1) (next_vf t) (next_ix t) = uf_code_sparse_last m p t rs rc dst dch cst cch.
 Proof. intros Ht. unfold sp_get_uf. replace (t =? n - 1) with true by (symmetry; apply Nat.eqb_eq; lia). reflexivity. Qed.
